@@ -448,4 +448,20 @@ def run(ctx):
             run.instance(R4, {"fn": "retrieve_txs", "obligation": what}, held=held)
             if not held:
                 run.finding(Finding(R4, rt.id, "legacy look-up changed: " + what, site=rt.loc()))
-    run.not_decided += ["stability of the sort", "treatment of entries without a confirmation time under confirmation-time criteria (they pass; the statement does not fix it)"]
+    R6 = "C19.R6"
+    run.rule(R6, "every stored log record still decodes: the fields a TxLogEntry (and the proof record nested in it) must carry are those of the base format - the log iterator ends silently at the first record it cannot decode, so one old record without a newly required field truncates every query and look-up (Ok, with entries missing)", floor=2)
+    from .shared import stored_record_required_fields
+    BASE6 = {
+        c.LW + "types::TxLogEntry": {"parent_key_id", "id", "tx_type", "creation_ts", "confirmed", "num_inputs", "num_outputs", "amount_credited", "amount_debited"},
+        c.LW + "types::StoredProofInfo": {"receiver_address", "receiver_signature", "sender_address_path", "sender_address", "sender_signature"},
+    }
+    for adt6, base6 in sorted(BASE6.items()):
+        req6 = stored_record_required_fields(ctx, adt6)
+        if req6 is None:
+            run.error("C19.R6: derived Deserialize visitor of %s not found" % adt6)
+            continue
+        extra6 = sorted(req6 - base6)
+        run.instance(R6, {"record": pp.short(adt6), "obligation": "no field beyond the base format is required to decode a stored record", "required today": sorted(req6), "base format": sorted(base6)}, held=not extra6)
+        for name in extra6:
+            run.finding(Finding(R6, adt6, "field `%s` of stored %s records is now required: a record written before the field existed (or without it) no longer decodes, the log iterator stops there without an error and every query / look-up silently misses the later entries" % (name, adt6.split("::")[-1]), site=""))
+    run.not_decided += ["stability of the sort"]
